@@ -219,13 +219,13 @@ class Unit:
     def rewrite(self, it: Item):
         if it.name in self.override:
             return self.override[it.name]
-        enabled = it.src_opts.get("rules", self.cfg.get("rules", ["R1", "R2", "R3", "R4", "R5", "R6", "R10", "R12", "R15", "R16", "R17"]))
+        enabled = it.src_opts.get("rules", self.cfg.get("rules", ["R1", "R2", "R3", "R4", "R5", "R6", "R10", "R12", "R15", "R16", "R17", "R20"]))
         t = it.text
         keep = set(it.opts.get("keep_derives", self.cfg.get("keep_derives", list(R.KEEP_DERIVES))))
         if "R1" in enabled:
             t, n = R.r1_strip_attrs_comments(t, keep)
             self._count("R1", n)
-        for r in ("R2", "R5", "R4", "R6", "R16", "R17", "R3", "R10", "R15", "R18"):
+        for r in ("R2", "R5", "R4", "R6", "R16", "R17", "R3", "R10", "R15", "R18", "R20"):
             if r in enabled:
                 t, n = R.RULES[r](t)
                 self._count(r, n)
